@@ -2,7 +2,7 @@
 from harness.common import Case, hx, unhx, tx_to_line, line_to_tx, Fields
 from harness import gen as G, fixtures as FX
 
-KINDS = 'ms'
+KINDS = 'gms'
 RULE = ('transactions built through the object API: 1..40 inputs/outputs plus counts 252/253/300, legacy / segwit / mixed / '
         'coinbase, random versions, locktimes, sequences, indices incl. 0 and 2^32-1, amounts incl. 0 and 2^63-1, scripts from '
         "C02's generator, witness stacks of 0..300 items of 0..70000 bytes with empty stacks forced next to non-empty ones; "
@@ -18,7 +18,8 @@ def tx_cases(ctx, tx, tag):
     line = tx_to_line(tx)
     nt = G.is_nontrivial_tx(tx)
     for seg in (0, 1):
-        yield Case(f'tx_ser {line} {seg}', 'ms', nontrivial=nt, tag=tag)
+        # serialisation also through the generated (translated) Transaction.to_bytes, interpreted: requests below 20000 characters
+        yield Case(f'tx_ser {line} {seg}', 'gms' if len(line) < 20000 else 'ms', nontrivial=nt, tag=tag)
     yield Case(f'tx_ids {line}', 'ms', nontrivial=nt, tag=tag)
     try:
         raw = tx.to_bytes(tx.has_segwit)
